@@ -123,7 +123,7 @@ def work(item):
     lang, engine, prefs, cases = item
     mc = mcx.worker_mc()
     base = [["rules_dir", mcx.RULES], ["pref", "Language", lang]] + [["pref", k, v] for k, v in prefs.items()]
-    ops = [[["mathml", terms.doc(t)], ["pref", "TTS", "none"], ["speech"], ["pref", "TTS", engine], ["speech"]] for _, t in cases]
+    ops = [[["mathml", _doc(t)], ["pref", "TTS", "none"], ["speech"], ["pref", "TTS", engine], ["speech"]] for _, t in cases]
     _, res = mc.run_cases(base, ops)
     pn = ",".join(f"{k}={v}" for k, v in prefs.items() if DEFAULTS[k] != v) or "defaults"
     pk = "+".join(k for k, v in prefs.items() if DEFAULTS[k] != v) or "defaults"
@@ -165,8 +165,18 @@ def work(item):
     return viol, counts, nontriv
 
 
+def _doc(t):
+    return t if isinstance(t, str) else terms.doc(t)
+
+
 def _rp(lang, engine, prefs, label, t):
-    return {"lang": lang, "engine": engine, "prefs": prefs, "label": label, "doc": terms.doc(t)}
+    return {"lang": lang, "engine": engine, "prefs": prefs, "label": label, "doc": _doc(t)}
+
+
+def test_corpus():
+    """the MathML inputs of the repository's own tests (inputs only): they make rules fire that the grammar's terms do not reach"""
+    import hashlib, testcorpus
+    return [("test:" + hashlib.sha1(x.encode()).hexdigest()[:10], x) for x in testcorpus.expressions()]
 
 
 def confirm(replay, verbose=False):
@@ -174,7 +184,7 @@ def confirm(replay, verbose=False):
     old = mcx._worker_mc
     mcx._worker_mc = mc
     try:
-        t = terms.parse_xml(replay["doc"]).kids[0]
+        t = replay["doc"] if replay["label"].startswith("test:") else terms.parse_xml(replay["doc"]).kids[0]
         v, _, _ = work((replay["lang"], replay["engine"], replay["prefs"], [(replay["label"], t)]))
     finally:
         mcx._worker_mc = old
@@ -213,6 +223,14 @@ def main(tier):
                     jobs.append(("en", engine, d, small))
                     nl += 1
     run.count("numeric_ladder_jobs", nl)
+    tc = test_corpus()
+    run.count("test_suite_expressions", len(tc))
+    bm = dict(DEFAULTS)
+    bm["Bookmark"] = "true"
+    for engine in ("SSML", "SAPI5"):
+        for prefs in ([bm, sets[-1]] if tier == "thorough" else [sets[-1]]):
+            for i in range(0, len(tc), 250):
+                jobs.append(("en", engine, prefs, tc[i:i + 250]))
     outs = []
     for _ in range(2):
         mcx._worker_mc = mcx.Mc()
@@ -233,7 +251,7 @@ def main(tier):
              f"{langs}; engines SSML and SAPI5 (each compared with engine none in the same session); preference sets: defaults, each of "
              "Rate{90,300} Pitch{20} Volume{50} PauseFactor{0,300} MathRate{150} CapitalLetters_Pitch{30} CapitalLetters_Beep CapitalLetters_UseWord{false} Bookmark; "
              "plus a 17-step boundary ladder (-100 .. 1000) for each of the six numeric preferences alone and combined with one other pitch setting, both engines, on the capital-letter expressions; "
-             "alone, all together" + (", and every pair" if tier == "thorough" else "") + ". distinct_nontrivial = distinct (language, engine, preference set, marked-up speech) results",
+             "alone, all together; the MathML inputs of the repository's own tests (inputs only) in English with all preferences set together, both engines" + (", and every pair" if tier == "thorough" else "") + ". distinct_nontrivial = distinct (language, engine, preference set, marked-up speech) results",
         assumptions=["word comparison ignores white space and the pause punctuation , ; and reads 'eigh' as the letter a (rule files spell the letter only when an engine can)",
                      "tag vocabularies are those of SSML 1.1 and SAPI5 XML TTS"],
         confirm=confirm)
